@@ -348,4 +348,22 @@ PROPS = {
             rap("rewind", "^TestC20Rewind$", 150, 1500, 6, 16),
         ],
     },
+    "C16": {
+        "level": "exploration",
+        "level_text": "aliasing: every result returned by two alternately driven Demuxers is rendered at delivery and re-rendered after every later "
+                      "call (deterministic, strong); Muxer inputs are compared before/after every call; concurrency: generated groups of 2..64 "
+                      "goroutines with independent Demuxers/Muxers run under the race detector with drawn start offsets and forced garbage "
+                      "collections, each result compared with the same job run alone",
+        "level_note": "the concurrency half only sees interleavings that happen: the harness owns neither the Go scheduler nor sync.Pool, so a race that "
+                      "needs one rare interleaving can be missed; a race-detector report or a differing/panicking goroutine fails the run",
+        "technique": "rapid property tests: snapshot/re-render aliasing oracle; concurrent vs sequential differential under the Go race detector",
+        "rule": "rapid-generated stream pairs / histories / job groups; non-trivial = >= 6 results held over >= 12 calls (aliasing), >= 3 WriteData with "
+                "payload (muxer inputs), >= 4 goroutines mixing Demuxers and Muxers (concurrent); distinct by input bytes",
+        "assumptions": [],
+        "units": [
+            rap("aliasing", "^TestC16Aliasing$", 600, 6000, 4, 16),
+            rap("muxer_inputs", "^TestC16MuxerInputs$", 1000, 10000, 2, 8),
+            rap("concurrent", "^TestC16Concurrent$", 25, 300, 4, 8, race=True),
+        ],
+    },
 }
